@@ -65,10 +65,10 @@ c.types(body="any", method="str", blocksize="int")
 c.duck_attrs = {"read"}
 c.modifies()
 c.ensures("implies(body is None, result.chunks is None)", "no-body-no-chunks")
-c.ensures("implies(body is None, result.content_length == (None if method.upper() in ('GET', 'HEAD', 'DELETE', 'TRACE', 'OPTIONS', 'CONNECT') else 0))",
+c.ensures("implies(body is None, (result.content_length is None) if method.upper() in ('GET', 'HEAD', 'DELETE', 'TRACE', 'OPTIONS', 'CONNECT') else (is_int(result.content_length) and result.content_length == 0))",
           "body-less:unframed-for-GET-like-methods-else-Content-Length-0")
-c.ensures("implies(isinstance(body, bytes), result.content_length == len(body) and len(result.chunks) == 1 and result.chunks[0] is body)", "bytes:Content-Length-is-the-length-and-the-payload-is-the-body")
-c.ensures("implies(isinstance(body, str), result.content_length == len(body.encode('utf-8')) and len(result.chunks) == 1 and result.chunks[0] == body.encode('utf-8'))",
+c.ensures("implies(isinstance(body, bytes), is_int(result.content_length) and result.content_length == len(body) and len(result.chunks) == 1 and result.chunks[0] is body)", "bytes:Content-Length-is-the-length-and-the-payload-is-the-body")
+c.ensures("implies(isinstance(body, str), is_int(result.content_length) and result.content_length == len(body.encode('utf-8')) and len(result.chunks) == 1 and result.chunks[0] == body.encode('utf-8'))",
           "str:framed-as-its-UTF-8-encoding")
 c.ensures("implies(body is not None, result.chunks is not None)", "a-body-is-never-dropped")
 c.ensures("implies(body is not None and not isinstance(body, (str, bytes)) and hasattr(body, 'read'), result.content_length is None)", "file-like:chunked")
